@@ -81,20 +81,32 @@ def uninit(ctx, prog, pfx, units=None):
         may = set()
         changed = True
         direct = []
+        # short-circuit lowering: the edge lhs -> `phi i1 [false, lhs], [c, rhs]; br` always continues to the
+        # false target, it never really "enters" the merge block; other phis of that block cannot take their
+        # lhs input on a path that goes on into the guarded code (constant-phi edge threading)
+        _, redirect = cfg.threaded_successors(f)
+
+        def feasible(phi, src):
+            return (src, phi.block.name) not in redirect
         for i in f.insns():
             if i.op == 'dbg':
+                continue
+            if i.op == 'phi':
+                for v, src in i.extra['incoming']:
+                    if v[0] == 'undef':
+                        nundef += 1
+                        if feasible(i, src):
+                            may.add(i.res)
                 continue
             for o in i.ops:
                 if o[0] == 'undef':
                     nundef += 1
-                    if i.op == 'phi':
-                        may.add(i.res)
-                    else:
-                        direct.append(i)
+                    direct.append(i)
         while changed:
             changed = False
             for i in f.insns():
-                if i.op == 'phi' and i.res not in may and any(o[0] == 'reg' and o[1] in may for o in i.ops):
+                if i.op == 'phi' and i.res not in may and any(
+                        v[0] == 'reg' and v[1] in may and feasible(i, src) for v, src in i.extra['incoming']):
                     may.add(i.res)
                     changed = True
         if not may and not direct:
